@@ -917,6 +917,22 @@ impl Exec {
                     self.viol("C17", "list", format!("list_tables {a:?}/{b:?}, expected {ea:?}/{eb:?}"));
                 }
             }
+            Op::TypeProbe { made, reopened, as_key } => {
+                ctx.dirty = true;
+                self.stats.api_calls += 3;
+                match crate::custom::type_probe(txn, *made, *reopened, *as_key) {
+                    crate::custom::ProbeOutcome::Ok => {}
+                    crate::custom::ProbeOutcome::Storage(e) => {
+                        if self.mode == Mode::Faulty {
+                            self.note_error(&e);
+                        } else {
+                            self.viol("C04", "unexpected-error", format!("type probe failed on a fault-free run: {e}"));
+                        }
+                        ctx.failed = true;
+                    }
+                    crate::custom::ProbeOutcome::Bad(d) => self.viol("C17", "type-probe", d),
+                }
+            }
             Op::SpEphemeral => {
                 if self.eph.len() >= 4 {
                     return;
